@@ -92,3 +92,13 @@ Theorem C03_attribute_identity :
     run ev k (get_attr o name) s = (RVal d, s).
 Proof. exact attribute_identity. Qed.
 Print Assumptions C03_attribute_identity.
+
+(* `o.fresh` on a mutable object without that attribute enters it (undefined); the same Boxed_Value is what every later read answers *)
+Theorem C03_attribute_created_once :
+  forall (ev : ast -> M dloc) k o cn attrs name s dat l,
+    nth_error (s_data s) (dl o) = Some dat -> d_const dat = false -> d_obj dat = Some l ->
+    nth_error (s_objs s) (ol l) = Some (ODyn cn attrs) -> assoc attrs name = None ->
+    exists s', run ev k (get_attr o name) s = (RVal (DL (List.length (s_data s))), s')
+               /\ run ev k (get_attr o name) s' = (RVal (DL (List.length (s_data s))), s').
+Proof. exact attribute_created_once. Qed.
+Print Assumptions C03_attribute_created_once.
